@@ -176,6 +176,14 @@ def handle (toks : List String) (impl : String) : Verdict :=
             else none }
       | _, _ => badOp "numbers"
     | _ => badOp "bomb result"
+  | ["rmut", file, lim, _] =>
+    -- a document the library did not write: a value or an error, never a panic; a value survives being written again
+    { oracle :=
+        if impl = "panic" then some s!"the {file} parser panicked on a malformed document"
+        else if impl = "err" then none
+        else if impl = "ok oversized" then (if lim = "-" then some "a delta list reported as oversized although no limit was given" else none)
+        else if impl.startsWith "ok rt-same" then none
+        else some s!"a {file} document was accepted, but the accepted value, written by the library, does not parse back to an equal value ({impl})" }
   | ["notifbig", nd, ulen] =>
     { oracle := match impl.splitOn " " with
         | [len, rt] => if rt = "same" then none
